@@ -562,6 +562,96 @@ def judge_tsan_replay(ctx, case, _resp):
 
 # ------------------------------------------------------------------------------------------------
 
+# ------------------------------------------------------------------------------------------------------------------
+# part: the deployed model evaluated through the HTTP service by several clients, each over its own connection
+# ------------------------------------------------------------------------------------------------------------------
+
+def feel_literal(w):
+    """driver binding -> FEEL literal text (the body of /evaluate is a FEEL context)"""
+    if w is None:
+        return "null"
+    if isinstance(w, bool):
+        return "true" if w else "false"
+    if "n" in w:
+        return w["n"] if not w["n"].startswith("-") else "(%s)" % w["n"]
+    if "s" in w:
+        out = []
+        for ch in w["s"]:
+            o = ord(ch)
+            out.append("\\\\" if ch == "\\" else '\\"' if ch == '"' else ch if 32 <= o < 127 else ("\\u%04X" % o if o < 0x10000 else "\\U%06X" % o))
+        return '"%s"' % "".join(out)
+    if "date" in w:
+        return 'date("%s")' % w["date"]
+    if "l" in w:
+        return "[%s]" % ", ".join(feel_literal(x) for x in w["l"])
+    if "c" in w:
+        return "{%s}" % ", ".join("%s: %s" % (k, feel_literal(v)) for k, v in w["c"])
+    raise ValueError(w)
+
+
+def gen_http(src):
+    ncalls = src.int(2, 10)
+    calls = []
+    for i in range(ncalls):
+        name = src.weighted([(w, n) for w, n in INVOCABLE_WEIGHTS if n != "No Such Invocable"])
+        calls.append([name, gen_input(src, i)])
+    clients = src.weighted([(2, 2), (3, 4), (3, 8), (2, 12)])
+    return {"calls": calls, "clients": [[src.int(0, ncalls - 1) for _ in range(src.int(5, 40))] for _ in range(clients)]}
+
+
+def judge_http(ctx, case, _resp):
+    """the workload model is deployed over the definitions endpoints; every call is first made alone, then the clients (one connection
+    each, so the service spreads them over its workers) make their calls together: every answer is the answer of that call made alone"""
+    import threading
+    from . import c18
+    srv = c18.server(ctx)
+    if getattr(srv, "_c20_deployed", None) is not srv.proc:
+        for path, body in (("/definitions/clear", None), ("/definitions/add", c18.jbody({"content": c18.b64(M.XML)})), ("/definitions/deploy", None)):
+            rec = srv.http.request("POST", path, body=body, headers=c18.JSON_CT)
+            if rec.get("status") != 200 or b'"errors"' in rec.get("body", b""):
+                raise Inconclusive("C20 http: preparing the service failed at %s: %r" % (path, rec))
+        srv._c20_deployed = srv.proc
+    reqs = [("/evaluate/%s/%s" % (c18.seg(M.NAME), c18.seg(name)), ("{%s}" % ", ".join("%s: %s" % (k, feel_literal(v)) for k, v in inp)).encode("utf-8"))
+            for name, inp in case["calls"]]
+    alone = []
+    for path, body in reqs:
+        rec = srv.http.request("POST", path, body=body, headers=c18.JSON_CT)
+        if "body" not in rec:
+            raise Inconclusive("C20 http: no answer to a call made alone: %r" % (rec,))
+        alone.append(rec["body"])
+    wrong, lock = [], threading.Lock()
+
+    def client(seq):
+        h = c18.Http(srv.port)
+        try:
+            for ci in seq:
+                rec = h.request("POST", reqs[ci][0], body=reqs[ci][1], headers=c18.JSON_CT)
+                if rec.get("body") != alone[ci]:
+                    with lock:
+                        wrong.append((ci, rec))
+                    return
+        finally:
+            h.close()
+    threads = [threading.Thread(target=client, args=(seq,)) for seq in case["clients"]]
+    [t.start() for t in threads]
+    [t.join(timeout=120) for t in threads]
+    ctx.note(key=h(case), nontrivial=len(case["clients"]) >= 4, labels=["http", "clients:%d" % len(case["clients"])]
+             + sorted({"class=" + M.class_of(n) for n, _ in case["calls"]}),
+             sample={"clients": len(case["clients"]), "calls": [c[0] for c in case["calls"]][:6], "alone": alone[0][:80].decode("utf-8", "replace")})
+    if any(t.is_alive() for t in threads):
+        raise Inconclusive("C20 http: a client did not finish within 120 s")
+    if wrong:
+        ci, rec = wrong[0]
+        if "body" not in rec:
+            raise Inconclusive("C20 http: a concurrent call got no answer: %r" % (rec,))
+        return Fail("C20/http-result-differs", "POST %s %s\n  made together with the calls of %d other clients is answered\n    %s\n  alone the same call is answered\n    %s" % (
+            reqs[ci][0], reqs[ci][1].decode("utf-8")[:300], len(case["clients"]) - 1, rec["body"][:300].decode("utf-8", "replace"), alone[ci][:300].decode("utf-8", "replace")))
+    again = srv.http.request("POST", reqs[0][0], body=reqs[0][1], headers=c18.JSON_CT)
+    if again.get("body") != alone[0]:
+        return Fail("C20/http-result-differs", "POST %s after the concurrent phase is answered %r, before it %r" % (reqs[0][0], again.get("body", b"")[:200], alone[0][:200]))
+    return None
+
+
 def setup(ctx):
     ctx.rule = ("cases: thread plans over one shared Arc<ModelEvaluator> of the workload model (numeric exp/**/sums, temporal with zone lookups, "
                 "regex matches/replace/split, decision tables, nested decision->decision->BKM->decision service): 2..16 threads x 20..200 calls "
@@ -578,6 +668,7 @@ def setup(ctx):
     ctx.p_cold = ctx.register(Part("cold", gen_plan, lambda case: [], judge_cold))
     ctx.p_first = ctx.register(Part("first-use", gen_first_use, lambda case: [], judge_first_use))
     ctx.p_tsan = ctx.register(Part("tsan", gen_plan, lambda case: [], judge_tsan_replay))
+    ctx.p_http = ctx.register(Part("http", gen_http, lambda case: [], judge_http))
 
 
 def run(ctx):
@@ -591,6 +682,8 @@ def run(ctx):
         ctx.forall(ctx.p_stress, ctx.scale(400, 24000), batch=1)
         ctx.forall(ctx.p_cold, ctx.scale(60, 3000), batch=1)
         ctx.forall(ctx.p_first, ctx.scale(150, 6000), batch=1)
+        if not ctx.stop():
+            ctx.forall(ctx.p_http, ctx.scale(60, 3000), batch=1)
     if ctx.thorough() and not ctx.stop():
         run_tsan(ctx)
     elif not ctx.thorough():
